@@ -160,6 +160,9 @@ def check(tree, rep, tier='quick', seed=0):
     rep.floor('distinct (definition, reference) reads resolved', n_reads, 3300)
     rep.floor('call sites resolved', n_calls, 900)
     rep.floor('form modules', n_mods, 63)
+    from ..core import get_core
+    from .. import corerules as R
+    R.k30_form_loading_reentrant(get_core(tree), rep)
     rep.count('absent forms referenced', sorted(absent_seen))
 
 
